@@ -137,3 +137,75 @@ contract(f"{RES}::RAMResults._generate_key", "C19", cases=["-"], inputs=_key_inp
          ensures=[("key-is-the-tuple-of-its-four-components-hence-injective",
                    lambda A, r: isinstance(r, SList) and r.kind == "tuple" and len(r.items) == 4 and r.items[0] is A.strategy_name and
                    r.items[1] is A.dataset_name and r.items[2] is A.train_or_test)])
+
+
+# ----------------------------------------------------------------------------- registry of strategy / dataset names
+BBASE = "sktime/benchmarking/base.py"
+
+
+def _ak_inputs(B, case):
+    I = B.I
+    ok, cls = I.mod_global(I.src.module("sktime.benchmarking.base"), "BaseResults")
+    obj = SObj(cls)
+    s_known, d_known = case.split("|")
+    s, d = "strategy-x", "dataset-y"
+    obj.attrs["strategy_names"] = SList(["other-strategy"] + ([s] if s_known == "known-strategy" else []), "list")
+    obj.attrs["dataset_names"] = SList(["other-dataset"] + ([d] if d_known == "known-dataset" else []), "list")
+    obj.ghost = dict(s0=list(obj.attrs["strategy_names"].items), d0=list(obj.attrs["dataset_names"].items))
+    return {"self": obj, "strategy_name": s, "dataset_name": d}
+
+
+def _ak_post(A, r):
+    g = A.self.ghost
+    sn, dn = A.self.attrs["strategy_names"].items, A.self.attrs["dataset_names"].items
+    want_s = g["s0"] + ([A.strategy_name] if A.strategy_name not in g["s0"] else [])
+    want_d = g["d0"] + ([A.dataset_name] if A.dataset_name not in g["d0"] else [])
+    return list(sn) == want_s and list(dn) == want_d
+
+
+contract(f"{BBASE}::BaseResults._append_key", "C19", cases=[f"{a}|{b}" for a in ("new-strategy", "known-strategy") for b in ("new-dataset", "known-dataset")],
+         inputs=_ak_inputs,
+         ensures=[("both-names-are-registered-exactly-once-earlier-entries-kept", _ak_post)],
+         notes=["the registry drives load_predictions (strategies x datasets): a name missing from it hides complete records"])
+
+
+# ----------------------------------------------------------------------------- on-disk store: what is written is what was handed over
+def _hdd_save_inputs(B, case):
+    I = B.I
+    ok, cls = I.mod_global(I.src.module("sktime.benchmarking.results"), "HDDResults")
+    obj = SObj(cls)
+    keys = []
+
+    def gen_key(I2, args, kwargs):
+        keys.append((list(args), dict(kwargs)))
+        return "KEY"
+    gen_key._pyvc_native = True
+    obj.attrs.update(_generate_key=gen_key, strategy_names=SList([], "list"), dataset_names=SList([], "list"))
+    obj.ghost = dict(keys=keys)
+    return {"self": obj, "strategy_name": "strategy-x", "dataset_name": "dataset-y", "y_true": B.opaque("y_true"), "y_pred": B.opaque("y_pred"),
+            "y_proba": B.opaque("y_proba"), "index": B.opaque("index"), "cv_fold": B.int("cv_fold", 0), "train_or_test": "test"}
+
+
+def _hdd_save_post(A, r):
+    evs = [e for e in trace() if e.method == "to_csv"]
+    g = A.self.ghost
+    if len(evs) != 1 or len(g["keys"]) != 1:
+        return False
+    e = evs[0]
+    frame = e.obj
+    cols = frame.prov[1].items if isinstance(frame, Opaque) and frame.prov and frame.prov[0] == "frame-from-dict" else None
+    if cols is None:
+        return False
+    ka, kk = g["keys"][0]
+    key_ok = (ka + [kk.get(n) for n in ("strategy_name", "dataset_name", "cv_fold", "train_or_test") if n in kk])
+    return (cols.get("index") is A.index and cols.get("y_true") is A.y_true and cols.get("y_pred") is A.y_pred and
+            e.arg(0) == "KEY.csv" and e.kwargs.get("index") is False and e.kwargs.get("header") is True and
+            e.kwargs.get("float_format") is None and e.kwargs.get("columns") is None and e.kwargs.get("na_rep") is None and
+            key_ok[0] == A.strategy_name and key_ok[1] == A.dataset_name and key_ok[2] is A.cv_fold and key_ok[3] == A.train_or_test and
+            A.strategy_name in A.self.attrs["strategy_names"].items and A.dataset_name in A.self.attrs["dataset_names"].items)
+
+
+contract(f"{RES}::HDDResults.save_predictions", "C19", cases=["-"], inputs=_hdd_save_inputs,
+         ensures=[("the-record-written-under-its-key-holds-index-y_true-y_pred-unformatted-and-both-names-are-registered", _hdd_save_post, {"modular": False})],
+         notes=["file layout (_generate_key) abstract; DataFrame.to_csv is a recorded external: full precision (no float_format), all "
+                "columns, header written, row labels not; reading back is bounded-tier only"])
